@@ -4,8 +4,32 @@ FIX_COMMITS = [
     "bf209631 QuadraticTriangle.gradient dh5/ds",
     "aaf1324b Tetrahedron(order=3) 4th point",
     "3437b65b Tetrahedron(order=5) degree-4 table replaced",
+    "3ca9c68c NeoHooke.gradient stale out buffer when mu is None",
 ]
 CHECKS = {
+    "C01": {
+        "text": "For every item class (SolidBody on 3D / plane-strain / axisymmetric fields and on mixed u/p/J containers with the real ThreeFieldVariation / NearlyIncompressible wrappers, "
+                "SolidBodyNearlyIncompressible at a settled state, follower pressure and Cauchy-stress loads, MultiPointConstraint, MultiPointContact per sign pattern, PointLoad, SolidBodyForce, "
+                "SolidBodyGravity, FormItem) the real assemble.vector / assemble.matrix run on tiny distorted meshes with ALL field values symbolic; every entry of K - d r/d x (DAG derivative of the traced "
+                "vector) and of K - K^T is refuted non-zero by z3.  The material is abstract (uninterpreted P, A with A = dP/dF major-symmetric), so the verdict holds for every hyperelastic material; "
+                "the cofactor/determinant maps are abstract likewise where needed (C03 proves the concrete ones).",
+        "note": "bounded to the listed meshes (1-6 cells per family); axisymmetric and condensed items within 1e-9 relative (rounded 2 pi R, R^2, V); mixed ThreeFieldVariation at item level thorough only.",
+    },
+    "C02": {
+        "text": "IntegralFormCartesian (linear/bilinear, all grad flags, every integrand layout the einsum strings admit, scalar/vector fields, 3-D integrand on 2-D field), IntegralFormAxisymmetric modes "
+                "1/2/10/30/40, IntegralForm block modes 1/2/3 with None blocks and a dual field of different size, the uniform-grid broadcast path and the Form expression API (sym, parallel) are executed with "
+                "every entry of the integrand, of dV and of the basis arrays h / dhdX as an independent real variable on 2-cell meshes; the assembled dense matrix is compared entry-wise with a nested-loop "
+                "definition of the sum at row = dim*point+component (+ field offset); multilinear identities refuted by z3 for all reals.",
+        "note": "scipy.sparse replaced by a dense stand-in with COO duplicate summation (differentially tested in the self-test); threads: one schedule executed.",
+    },
+    "C03": {
+        "text": "stress = dW/dF and elasticity = dP/dF as SMT obligations over symbolic F (9 variables), parameters and state for every hand-coded model, CompositeMaterial, kinematics, out= buffer variants; "
+                "all nine (incl. transposed) blocks of ThreeFieldVariation / NearlyIncompressible (also with custom U(J)) around an ABSTRACT inner material; OgdenRoxburgh on both sides of the history switch "
+                "around an abstract base; small-strain plasticity elastic and plastic branch (algorithmic tangent, within 1e-9); felupe's tensortrax Hyperelastic wrapper against the chain rule with an abstract "
+                "W(C); tensortrax models neo_hooke / SVK / orthotropic SVK (+ blatz_ko) at the C level.  Identities needing root relations are discharged through solver-checked certificates "
+                "num = sum Q_g (g^q - base_g).",
+        "note": "one quadrature point per trace; det F > 0.2 box |F-I| <= 0.4; outside: eigh/expm-based models, micro-sphere, jax AD, the isochoric tensortrax models listed in evidence.outside_claim.",
+    },
     "C04": {
         "text": "Every identity of the property (gradient = d function, hessian = d gradient and symmetric, Kronecker property at the nodes, partition of unity, "
                 "reproduction of the element's polynomial space with symbolic coefficients, bubbles vanish on the boundary, permutation variants) is an SMT obligation over the "
